@@ -31,6 +31,7 @@ EXPLANATION = (
     ' R5 also: SdoAbortedError accepts every 32-bit code (constructor specialised for boundary codes).'
     ' R2 also: every segmented transfer starts from a fresh buffer and toggle (shared server clause).'
     " R2 also: nothing that can refuse the write runs after the store; R10 also: positional arguments of set_data are bound by LocalNode.set_data's own parameter list."
+    " R5 also: the client marks a download stream done before the segment flagged last is exchanged, so the server's abort code of a refused last segment reaches the caller (clause of C01.R6)."
 )
 ASSUMPTIONS = [
     "not decided: random object dictionaries and request histories; write callbacks are opaque",
@@ -237,6 +238,8 @@ def run(chk):
     chk.saw(ei)
     st = [n for n in own_nodes(ei.node) if isinstance(n, ast.Assign) and dotted(n.targets[0]) == "self.code"]
     chk.check(len(st) == 1 and src(st[0].value) == "code", "R5", f"{EX}:SdoAbortedError.__init__ | code stored", ei.loc(), "self.code is not the received code")
+    from . import shared as _sh5
+    _sh5.done_before_last_exchange(chk, "R5")
     # whatever the 32 bits of an abort frame hold becomes an SdoAbortedError: the constructor refuses no 32-bit code
     pn = [a.arg for a in ei.node.args.args][1:2]
     if pn:
